@@ -427,6 +427,7 @@ class Frame:
 
 MUTATORS = {
     'append', 'pop', 'extend', 'remove', 'clear', 'add', 'discard',
+    'get_nowait', 'get',
     'insert', 'update', 'put', 'setdefault', 'popitem', 'sort', 'reverse',
 }
 
@@ -517,6 +518,14 @@ class Executor:
         if isinstance(x, PyTuple) and isinstance(ty, TList):
             items = [self.coerce(st, i, ty.elem) for i in x.items]
             return self.list_lit(items, ty.elem)
+        if isinstance(x, PyTuple) and isinstance(ty, TOpt) \
+                and isinstance(ty.inner, (TList, TTuple)):
+            inner = self.coerce(st, x, ty.inner)
+            return V(self.S.sort(ty).some(inner.t), ty)
+        if isinstance(x, PyTuple) and ty is TAny and not x.items:
+            return self.coerce(
+                st, self.list_lit([], TOpt(TAny)), TAny,
+            )
         v = self.as_v(st, x)
         if v.ty == ty:
             return v
@@ -592,9 +601,25 @@ class Executor:
             st.any_axioms.add(k)
             x = z3.Const('anyx_%d' % tag, srt)
             st.assume(z3.ForAll(
-                [x], inv(inj(x)) == x, patterns=[inj(x)],
+                [x], z3.And(inv(inj(x)) == x, self.any_tag(inj(x)) == tag),
+                patterns=[inj(x)],
             ))
         return inj, inv
+
+    def view(self, st: State, v: V, ty: T) -> V:
+        """Read a dynamically typed value back at type `ty` (left inverse
+        of the injection)."""
+        inj, inv = self.any_fns(st, ty)
+        return V(inv(v.t), ty)
+
+    @property
+    def any_tag(self) -> Any:
+        if not hasattr(self, '_any_tag'):
+            self._any_tag = z3.Function('any_tag', self.S.AnyS, z3.IntSort())
+        return self._any_tag
+
+    def tag_of(self, ty: T) -> int:
+        return self.S.inj(ty)[2]
 
     def truth(self, st: State, x: Any) -> Any:
         v = self.as_v(st, x)
